@@ -94,15 +94,53 @@ def isSpaceGo (c : Char) : Bool :=
       text left after the last ';' (`strings.TrimSpace(line) != ""`) is reported as an error record
       with the next identifier: an unterminated last tree.
     * a line after which the last non-blank character is ';' ends the chunk: it is parsed; an error is
-      sent with the current id and reading stops (`break`). -/
-def multiGo (C : NewickCodec) : List Txt → Txt → Nat → List Rec
+      sent with the current id and reading stops (`break`).
+    Since fix 3850fd2 every tree of the chunk is parsed (`chunkGo`); `multiGoOne` is the loop before it. -/
+def multiGoOne (C : NewickCodec) : List Txt → Txt → Nat → List Rec
   | [], acc, id => if id == 0 then [⟨0, .err⟩] else if acc.all isSpaceGo then [] else [⟨id, .err⟩]
   | l :: ls, acc, id =>
     let ln := acc ++ l
     if lastNonBlank ln == ';' then
       match C.parse ln with
       | none => [⟨id, .err⟩]
-      | some t => ⟨id, .ok t⟩ :: multiGo C ls [] (id + 1)
+      | some t => ⟨id, .ok t⟩ :: multiGoOne C ls [] (id + 1)
+    else multiGoOne C ls ln id
+
+/-- the multi-tree reader BEFORE fix 3850fd2 (`multiGoOne` above: ONE `Parse()` per chunk): text after the
+    first ';' of a line is dropped without a record -/
+def readMultiNewickOne (C : NewickCodec) (doc : Txt) : List Rec := multiGoOne C (splitLines doc) [] 0
+
+/-- what the Newick parser has not consumed after a successful `Parse()`: the text after the first ';'
+    that is not inside a `[…]` comment (the lexer has no quoting) -/
+def afterTree : Txt → Bool → Txt
+  | [], _ => []
+  | c :: r, inCom =>
+    if inCom then afterTree r (c != ']')
+    else if c == '[' then afterTree r true
+    else if c == ';' then r
+    else afterTree r false
+
+/-- the trees of ONE chunk since fix 3850fd2: `Parse()`, then as long as `More()` (something else than white
+    space is left) `Parse()` again on what is left.  Result: the records, and the next identifier — `none`
+    after an error record (the caller stops reading).  `fuel` bounds the iterations (each consumes a ';'). -/
+def chunkGo (C : NewickCodec) : Nat → Txt → Nat → List Rec × Option Nat
+  | 0, _, id => ([], some id)
+  | f + 1, ln, id =>
+    match C.parse ln with
+    | none => ([⟨id, .err⟩], none)
+    | some t =>
+      let rest := afterTree ln false
+      if rest.all isNewickWs then ([⟨id, .ok t⟩], some (id + 1))
+      else (⟨id, .ok t⟩ :: (chunkGo C f rest (id + 1)).1, (chunkGo C f rest (id + 1)).2)
+
+def multiGo (C : NewickCodec) : List Txt → Txt → Nat → List Rec
+  | [], acc, id => if id == 0 then [⟨0, .err⟩] else if acc.all isSpaceGo then [] else [⟨id, .err⟩]
+  | l :: ls, acc, id =>
+    let ln := acc ++ l
+    if lastNonBlank ln == ';' then
+      match (chunkGo C (ln.length + 1) ln id).2 with
+      | none => (chunkGo C (ln.length + 1) ln id).1
+      | some nid => (chunkGo C (ln.length + 1) ln id).1 ++ multiGo C ls [] nid
     else multiGo C ls ln id
 
 def readMultiNewick (C : NewickCodec) (doc : Txt) : List Rec := multiGo C (splitLines doc) [] 0
@@ -444,13 +482,15 @@ def parseTaxa : Nat → List Tok → Int → List String → PRes ((Int × List 
        | some r' => parseTaxa f r' ntax labs
        | none => .err)
 
-/-- `parseTranslationTable` (comments inside the table are not followed) -/
+mutual
+/-- `parseTranslationTable`; a comment where an entry could start is consumed (`consumeComment`), a
+    bracket anywhere else in an entry is an error -/
 def parseTransl : List Tok → List (String × String) → PRes (List (String × String) × List Tok)
   | [], _ => .err
   | .eol :: r, m => parseTransl r m
   | .comma :: r, m => parseTransl r m
   | .endcmd :: r, m => .ok (m, r)
-  | .openbrack :: _, _ => .unsupported
+  | .openbrack :: r, m => parseTranslCom r m
   | t :: r, m =>
     match t.name? with
     | none => .err
@@ -466,6 +506,12 @@ def parseTransl : List Tok → List (String × String) → PRes (List (String ×
           | .comma :: r3 => parseTransl r3 (mapSet m key value)
           | .eol :: r3 => parseTransl r3 (mapSet m key value)
           | _ => .err
+/-- inside a comment of the TRANSLATE command: up to the `]`; the end of the input is an error -/
+def parseTranslCom : List Tok → List (String × String) → PRes (List (String × String) × List Tok)
+  | [], _ => .err
+  | .closebrack :: r, m => parseTransl r m
+  | _ :: r, m => parseTranslCom r m
+end
 
 /-- the loop collecting the tree string of a TREE command: literals are concatenated (white space is
     gone), up to `;`; a line end, a keyword or the end of the input is an error -/
@@ -857,12 +903,19 @@ def decKids (N : NumCodec) : List Xml → Nex.PRes (List Clade)
     else decKids N r
 end
 
-/-- decode a `<phylogeny>`: its root clade (a missing `<clade>` leaves the zero struct) -/
+/-- `xml.Unmarshal` of an attribute into a `bool` field: the empty value is `false`, otherwise
+    `strconv.ParseBool(strings.TrimSpace(v))` must succeed -/
+def parseBoolOk (v : String) : Bool :=
+  v == "" || ["1", "t", "T", "TRUE", "true", "True", "0", "f", "F", "FALSE", "false", "False"].contains
+    (String.ofList (trim v.toList))
+
+/-- decode a `<phylogeny>`: its root clade (a missing `<clade>` leaves the zero struct); a `rooted`
+    attribute that is not a Go boolean makes `Unmarshal` (hence the reader) fail; its value is not used -/
 def decPhylogeny (N : NumCodec) (x : Xml) : Nex.PRes Clade :=
   let rootedOk : Bool := match x with
-    | .elem _ attrs _ => attrs.all fun (k, v) => k != "rooted" || v == "true" || v == "false"
+    | .elem _ attrs _ => attrs.all fun (k, v) => k != "rooted" || parseBoolOk v
     | _ => true
-  if !rootedOk then .unsupported else
+  if !rootedOk then .err else
   match decKids N x.kids with
   | .ok [] => .ok (.mk "" none none "" "" [])
   | .ok [c] => .ok c
@@ -998,12 +1051,15 @@ def readMulti (E : Env) : Doc → MultiRes
   | .newick s => some (readMultiNewick E.C s)
   | .nexus s =>
     (match Nex.parse E.C s with
+     -- since fix 78cdd07 a document that holds no tree is reported: one error record, identifier 0
+     | .ok [] => some [⟨0, .err⟩]
      | .ok d => some (recsOfTrees (d.map (·.2)) 0)
      | .err => some [⟨0, .err⟩]
      | .unsupported => none)
   | .phyloxml none => some [⟨0, .err⟩]
   | .phyloxml (some x) =>
     (match Px.decode E.N x with
+     | .ok [] => some [⟨0, .err⟩]
      | .ok cs => some (recsOfOuts (pxIterate cs) 0)
      | .err => some [⟨0, .err⟩]
      | .unsupported => none)
